@@ -154,8 +154,8 @@ fn op_done(op: usize, v: usize) { RES[op].store(v, SeqCst); RET[op].store(now(),
                 body.append('{ let v = %s.take().unwrap().sync(); fut_done(%d, match v { Ok(v) => v, Err(_) => 7777 }); }' % (var, fop))
             elif kind == 'resume':
                 var = op[1]; fop, fkind = futvars[var]
-                if op[2] == 'resume': body.append('resumers_%s.take().unwrap().resume(); RESUMED[%d].store(now(), SeqCst);' % (var, fop))
-                else: body.append('drop(resumers_%s.take()); RESUMED[%d].store(now(), SeqCst);' % (var, fop))
+                if op[2] == 'resume': body.append('RESUMED[%d].store(now(), SeqCst); resumers_%s.take().unwrap().resume();' % (fop, var))
+                else: body.append('RESUMED[%d].store(now(), SeqCst); drop(resumers_%s.take());' % (fop, var))
             elif kind == 'd_new':
                 cid = canaries.setdefault(op[1], len(canaries))
                 body.append('let mut dv_%s = Some(desync::Desync::new(Canary { id: %d }));' % (op[1], cid))
@@ -213,7 +213,7 @@ def run_replay(spec, schedule, keep=None):
             else: os.remove(p)
         open(os.path.join(src, 'tests', 'replay.rs'), 'w').write(gen_harness(spec, schedule))
         env = dict(os.environ, CARGO_NET_OFFLINE='true', RUSTFLAGS='--cfg desync_verif -C debug-assertions=off', DESYNC_VERIF_DIR=os.path.join(VERIF, 'shim'),
-                   CARGO_TARGET_DIR=os.path.join(VERIF, 'scratch', 'replay_target'))
+                   CARGO_TARGET_DIR=os.environ.get('VERIF_REPLAY_TARGET', os.path.join(VERIF, 'scratch', 'replay_target')))
         p = subprocess.run(['cargo', 'test', '--offline', '--test', 'replay', '--', '--nocapture', '--test-threads', '1'], cwd=src, env=env,
                            capture_output=True, text=True, timeout=600)
         out = p.stdout
